@@ -171,11 +171,51 @@ def r4_none_and_insert(rep, facts):
         rep.check(R, f'{d}|store', ops == ['insert'], f'{ops}', f'`{d}` stores entries with {ops}; its twins use `insert` (last value wins on a repeated key), so the routes disagree on duplicate keys', facts.loc(b))
 
 
+def r7_value_passes(rep, facts, rid='C13/R7'):
+    R = rep.rule(rid, 'Serialize for toml::Value writes a table in passes (plain values, arrays holding tables, tables): evaluated on a table with one entry of every kind '
+                 '(scalar, arrays of scalars / of tables / mixed / empty, table), every entry is written exactly once, the announced length is the number of entries, '
+                 'and no table-holding entry comes before a plain one', floor=3)
+    from .den import RecInterp, Evaluator, Unanalysable, EvalPanic
+    d = "<toml::value::Value as serde::ser::Serialize>::serialize"
+    if not facts.has_body(d):
+        rep.incomplete(R, 'Value::serialize', 'not found')
+        return
+    b = facts.body(d)
+    pn = [p_['name'] for p_ in b['params'] if p_.get('k') == 'p_bind']
+    V = 'toml::value::Value::'
+    INT = lambda i: ('ctor', V + 'Integer', (i,))
+    TAB = ('ctor', V + 'Table', ((),))
+    ARR = lambda *xs: ('ctor', V + 'Array', (tuple(xs),))
+    kinds = [('scalar', INT(1), 0), ('table', TAB, 2), ('array of scalars', ARR(INT(1), INT(2)), 0), ('array of tables', ARR(TAB, TAB), 1), ('array: scalar then table', ARR(INT(1), TAB), 1),
+             ('array: table then scalar', ARR(TAB, INT(1)), 1), ('empty array', ARR(), 0), ('scalar after the table', INT(2), 0)]
+    kids = tuple((k, v) for k, v, _ in kinds)
+    it = RecInterp(Evaluator(facts), {'serialize_map', 'serialize_entry', 'end'})
+    env = {pn[0]: ('ctor', V + 'Table', (kids,)), pn[1]: ('opaque',), '@assign': {}}
+    try:
+        it.val(b['body'], env)
+    except (Unanalysable, EvalPanic) as e:
+        rep.incomplete(R, 'Value::serialize', f'cannot evaluate: {e}', facts.loc(b))
+        return
+    written = [a[0] for nm, a in it.calls if nm == 'serialize_entry' and a]
+    missing = [k for k, _, _ in kinds if written.count(k) == 0]
+    twice = [k for k, _, _ in kinds if written.count(k) > 1]
+    rep.check(R, 'Value::serialize|every-entry-once', not missing and not twice, f'{len(written)} entries written', f'`Serialize for toml::Value`: entries never written: {missing}; written more than once: {twice} '
+              f'(a value of that kind silently disappears from / is duplicated in every encoding of the Value)', facts.loc(b))
+    lens = [a[0] for nm, a in it.calls if nm == 'serialize_map' and a]
+    okl = len(lens) == 1 and lens[0] in (('ctor', 'core::option::Option::Some', (len(kinds),)), ('ctor', 'core::option::Option::None'))
+    rep.check(R, 'Value::serialize|announced-length', okl, f'{lens}', f'serialize_map is announced with {lens}, the table has {len(kinds)} entries', facts.loc(b))
+    rank = {k: r for k, _, r in kinds}
+    order = [rank[k] for k in written if k in rank]
+    rep.check(R, 'Value::serialize|values-first', order == sorted(order), 'plain values, then arrays holding tables, then tables', f'entries are written in the order {written}: a plain value after a '
+              f'table (or array of tables) would be read back as a member of that table', facts.loc(b))
+
+
 def rules(rep, facts):
     feats = set(facts.crates.get('toml_edit', {}).get('features', []))
     if 'toml' not in facts.crates:
         return
     r1_wrappers(rep, facts)
+    r7_value_passes(rep, facts)
     if 'toml_edit' in facts.crates and 'serde' in feats:
         r2_tunnel(rep, facts)
         r4_none_and_insert(rep, facts)
